@@ -471,6 +471,9 @@ func (r *reader) elems(v Val) ([]Val, bool) {
 				return nil, false
 			}
 			n, isC := constInt(c.val)
+			if isC && n == 0 {
+				return nil, true // make([]T, 0, cap): empty whatever the capacity
+			}
 			sl, isS := x.Type().Underlying().(*types.Pointer)
 			if !isC || !isS || n > 64 {
 				return nil, false
